@@ -81,19 +81,20 @@ theorem step_inner_frame {s s' : CSh} {t t' : CTh} {k : Kont} (hc : t.ctl = .inn
     obtain ⟨rfl, _⟩ := heq
     simp [upd, ho]
 
-/-- A monitor step that panics is the guard of `Unlock`/`RUnlock` failing, and changes nothing. -/
+/-- A monitor step that panics is the guard of `Unlock`/`RUnlock` failing; it releases the internal mutex and changes
+nothing else. -/
 theorem mxStep_panic {s s' : Mx} {v v' : V} (h : (s', v') ∈ mxStep s v) (h1 : v'.pc = .dead) :
-    s' = s ∧ (v.pc = .ulC ∨ v.pc = .ruC) := by
+    s' = { s with m := false } ∧ (v.pc = .ulC ∨ v.pc = .ruC) := by
   obtain ⟨pc, rd, wr⟩ := v
   cases pc <;> simp only [mxStepG, ulCStep] at h <;> (repeat' split at h) <;>
     simp only [List.mem_singleton, List.not_mem_nil, Prod.mk.injEq] at h <;>
     (try (obtain ⟨rfl, rfl⟩ := h)) <;> simp at h1 ⊢
 
-/-- The panic inside `StarvingMutex.Unlock`/`RUnlock` (the wrong-mode case) changes nothing at all — the
-internal mutex of that one object stays locked, as it was when the method tested its guard. -/
+/-- The panic inside `StarvingMutex.Unlock`/`RUnlock` (the wrong-mode case): the internal mutex of that one object is
+released again, nothing else in the whole state changes. -/
 theorem step_inner_panic {s s' : CSh} {t t' : CTh} {k : Kont} (hc : t.ctl = .inner k)
     (hm : (s', t') ∈ step s t) (h1 : t'.ipc = .dead) :
-    s' = s ∧ (t.ipc = .ulC ∨ t.ipc = .ruC) := by
+    s' = { s with heap := upd s.heap t.cur { s.heap t.cur with m := false } } ∧ (t.ipc = .ulC ∨ t.ipc = .ruC) := by
   unfold step at hm
   simp only [hc] at hm
   by_cases hi : t.ipc = .idle
@@ -111,10 +112,6 @@ theorem step_inner_panic {s s' : CSh} {t t' : CTh} {k : Kont} (hc : t.ctl = .inn
     obtain ⟨e, hw⟩ := mxStep_panic (s' := p.1) (v' := p.2) hp h1
     refine ⟨?_, by simpa [proj] using hw⟩
     rw [e]
-    obtain ⟨heap, ent, cnt, next, dm⟩ := s
-    simp only [CSh.mk.injEq, and_true]
-    funext y
-    by_cases hy : y = t.cur <;> simp [upd, hy]
 
 /-- When `lookupMutexes(xs...)` panics: exactly when some id has no mutex or occurs in `xs` more often than it is
 registered. -/
@@ -250,12 +247,12 @@ theorem call_runlock_lookup (s : CSh) (t : CTh) (xs : List Nat) (r : List DOp) (
   simp [runSched, sys, step, hl']
 
 /-- `Unlock(x)` of an entity that is registered but not write-locked (or has readers): the call panics inside
-`StarvingMutex.Unlock`; nothing but the internal mutex of that object has changed. -/
+`StarvingMutex.Unlock`, which releases its internal mutex again: the whole shared state is as before the call. -/
 theorem call_unlock_wrong_mode (s : CSh) (t : CTh) (x o : Nat) (r : List DOp) (others : List CTh)
     (hc : t.ctl = .idle) (hs : t.script = .unlock x :: r) (hd : s.dm = false) (he : s.ent x = some o)
     (hm : (s.heap o).m = false) (hw : 0 < (s.heap o).readers ∨ (s.heap o).writer = false) :
     ∃ t', runSched sys (s, t :: others) (List.replicate 5 (0, 0)) =
-        ({ s with heap := upd s.heap o { s.heap o with m := true } }, t' :: others) ∧
+        (s, t' :: others) ∧
       t'.ipc = .dead ∧ t'.script = r := by
   obtain ⟨heap, ent, cnt, next, dm⟩ := s
   obtain ⟨ctl, iop, curEnt, cur, ipc, rd, wr, held, hobj, script⟩ := t
@@ -264,16 +261,20 @@ theorem call_unlock_wrong_mode (s : CSh) (t : CTh) (x o : Nat) (r : List DOp) (o
   simp [runSched, sys, step, he, startInner, start, proj, mxStepG, ulCStep, hm, upd, hw, List.replicate]
   refine ⟨_, ⟨?_, rfl⟩, rfl, rfl⟩
   funext y
-  by_cases hy : y = o <;> simp [upd, hy]
+  by_cases hy : y = o
+  · subst hy
+    cases hh : heap y
+    simp_all [upd]
+  · simp [upd, hy]
 
 /-- `RUnlock(xs…)` that passes the lookup but whose first mutex is not read-locked (or is write-locked): the call
-panics inside `StarvingMutex.RUnlock`; nothing but the internal mutex of that object has changed. -/
+panics inside `StarvingMutex.RUnlock`, which releases its internal mutex again: the whole shared state is as before. -/
 theorem call_runlock_wrong_mode (s : CSh) (t : CTh) (xs : List Nat) (o : Nat) (os : List Nat) (r : List DOp)
     (others : List CTh) (hc : t.ctl = .idle) (hs : t.script = .runlock xs :: r) (hd : s.dm = false)
     (hl : lookAll s [] xs = some (o :: os)) (hm : (s.heap o).m = false)
     (hw : (s.heap o).readers = 0 ∨ (s.heap o).writer = true) :
     ∃ t', runSched sys (s, t :: others) (List.replicate 5 (0, 0)) =
-        ({ s with heap := upd s.heap o { s.heap o with m := true } }, t' :: others) ∧
+        (s, t' :: others) ∧
       t'.ipc = .dead ∧ t'.script = r := by
   obtain ⟨heap, ent, cnt, next, dm⟩ := s
   obtain ⟨ctl, iop, curEnt, cur, ipc, rd, wr, held, hobj, script⟩ := t
@@ -285,6 +286,10 @@ theorem call_runlock_wrong_mode (s : CSh) (t : CTh) (xs : List Nat) (o : Nat) (o
   simp [runSched, sys, step, hl', startInner, start, proj, mxStepG, hm, upd, hw, List.replicate]
   refine ⟨_, ⟨?_, rfl⟩, rfl, rfl⟩
   funext y
-  by_cases hy : y = o <;> simp [upd, hy]
+  by_cases hy : y = o
+  · subst hy
+    cases hh : heap y
+    simp_all [upd]
+  · simp [upd, hy]
 
 end Hive.SyncMutex.Comp
